@@ -418,6 +418,23 @@ def default_models():
     def _interp(I, x, xp, fp, left=None, right=None):
         """np.interp: piecewise linear, exact at nodes, clamped (or left/right) outside; increasing xp."""
         from .arrays import _ite
+        if isinstance(xp, SArr) and isinstance(fp, SArr) and is_sym(xp.length) and not isinstance(x, SArr):
+            # table axis of symbolic length: the same contract with the cell named by a fresh index k (xp increasing is the
+            # caller's precondition, as for the concrete branch): below xp[0] -> left / fp[0], above xp[n-1] -> right / fp[n-1],
+            # otherwise xp[k] <= x <= xp[k+1] and the value is the chord of that cell at x
+            n = to_z3(xp.length)
+            if I.ctx.branch(n != to_z3(fp.length)) or I.ctx.branch(n < 1):
+                I.raise_('ValueError', 'fp and xp are not of the same length')
+            v = to_real(x)
+            r = I.ctx.fresh('np_interp', z3.RealSort())
+            k = I.ctx.fresh('np_interp_cell', z3.IntSort())
+            x0, x1, f0, f1 = to_real(xp.at(k)), to_real(xp.at(k + 1)), to_real(fp.at(k)), to_real(fp.at(k + 1))
+            first, last = to_real(xp.at(0)), to_real(xp.at(n - 1))
+            lo = to_real(fp.at(0)) if left is None else to_real(left)
+            hi = to_real(fp.at(n - 1)) if right is None else to_real(right)
+            I.ctx.axiom(z3.If(v < first, r == lo, z3.If(v > last, r == hi, z3.If(v == last, r == to_real(fp.at(n - 1)),
+                        z3.And(k >= 0, k < n - 1, x0 <= v, v < x1, r * (x1 - x0) == f0 * (x1 - x0) + (f1 - f0) * (v - x0))))))
+            return r
         xs, fs = I.iterate(xp), I.iterate(fp)
         if len(xs) != len(fs) or not xs:
             I.raise_('ValueError', 'fp and xp are not of the same length')
